@@ -1,5 +1,6 @@
 """Program model over the mdkfacts JSON: functions, CFGs, dominators, call graph, value flow."""
 import collections
+import os
 import re
 
 WORKSPACE = ("mdk_core", "mdk_memory_storage", "mdk_sqlite_storage", "mdk_storage_traits", "mdk_uniffi",
@@ -436,7 +437,14 @@ class Fn:
 
 
 class Program:
-    def __init__(self, facts):
+    def __init__(self, facts, inline=None):
+        # private helpers are inlined into their callers before any rule looks at a function body (see inline.py)
+        if inline is None:
+            inline = os.environ.get("VERIF_NO_INLINE") != "1"
+        self.inlined_calls = 0
+        if inline:
+            import inline as _inl
+            facts, self.inlined_calls = _inl.apply(facts)
         self.fns = {}
         self.by_crate = collections.defaultdict(list)
         self.adts = {}
@@ -467,6 +475,22 @@ class Program:
                 self.closures_of[f.parent].append(f)
         self._edges = None
         self._redges = None
+
+    def family(self, f):
+        """f and the closures created in its body (after inlining: also those of the helpers inlined into it), transitively"""
+        out, todo, seen = [], [f], set()
+        while todo:
+            g = todo.pop()
+            if g.path in seen:
+                continue
+            seen.add(g.path)
+            out.append(g)
+            for bb, st in g.stmts():
+                if st.get("k") == "closure" and st.get("closure") in self.fns:
+                    todo.append(self.fns[st["closure"]])
+            for c in self.closures_of.get(g.path, []):
+                todo.append(c)
+        return out
 
     # ---------- lookup ----------
     def find(self, adt=None, name=None, crate=None, trait=None, path_contains=None, include_tests=False):
